@@ -118,6 +118,9 @@ func DictNew(metatype *Type, args Tuple, kwargs StringDict) (Object, error) {
 			for _, i := range seq.Items {
 				switch z := i.(type) {
 				case Tuple:
+					if len(z) != 2 {
+						return nil, ExceptionNewf(ValueError, "dictionary update sequence element has length %d; 2 is required", len(z))
+					}
 					if zStr, ok := z[0].(String); ok {
 						out[string(zStr)] = z[1]
 					}
